@@ -1,5 +1,6 @@
 import CgtModel.Report
 import CgtModel.Spec
+import CgtModel.Fx
 /-! Line protocol: token parsers and printers shared by all driver commands. -/
 namespace Cgt.Wire
 open Cgt
@@ -116,6 +117,97 @@ def showSpec (rs : List Spec.Result) : String :=
           String.join (d.legs.map (fun l =>
             let acq := match l.acq with | some a => showDate a | none => "-"
             s!" M {showRule l.rule} {showRat l.qty} {showRat l.cost} {acq}"))))))
+
+def parseCAmt? (s : String) : Option CAmt :=
+  match s.splitOn ":" with
+  | [a] => (parseRat? a).map (fun x => ⟨x, "GBP"⟩)
+  | [a, c] => (parseRat? a).map (fun x => ⟨x, c⟩)
+  | _ => none
+
+def parseCTx? (s : String) : Option CTx :=
+  match s.splitOn "," with
+  | [dt, tk, k, a, b, c] =>
+    match parseDate? dt, parseCAmt? a, parseCAmt? b, parseCAmt? c with
+    | some dt, some a, some b, some c =>
+      let op? : Option COp :=
+        match k with
+        | "B" => some (.buy a.amt b c)
+        | "S" => some (.sell a.amt b c)
+        | "D" => some (.dividend a b)
+        | "A" => some (.accumulation a.amt b c)
+        | "C" => some (.capreturn a.amt b c)
+        | "X" => some (.split a.amt)
+        | "U" => some (.unsplit a.amt)
+        | _ => none
+      op?.map (fun op => { date := dt, ticker := tk, op := op })
+    | _, _, _, _ => none
+  | _ => none
+
+def parseKey? (s : String) : Option RateKey :=
+  match s.splitOn ":" with
+  | [c, y, m] =>
+    match parseInt? y, parseInt? m with
+    | some y, some m => some (c, y, m)
+    | _, _ => none
+  | _ => none
+
+/-- `USD:2024:6=5/4;EUR:2024:6=6/5` or `-` -/
+def parseCache? (s : String) : Option Cache :=
+  if s = "-" then some []
+  else parseAll (fun kv =>
+    match kv.splitOn "=" with
+    | [k, v] =>
+      match parseKey? k, parseRat? v with
+      | some k, some v => some (k, v)
+      | _, _ => none
+    | _ => none) (s.splitOn ";")
+
+def parseYM? (s : String) : Option (Option (Int × Int)) :=
+  if s = "X" then some none
+  else match s.splitOn "-" with
+    | [y, m] =>
+      match parseInt? y, parseInt? m with
+      | some y, some m => some (some (y, m))
+      | _, _ => none
+    | _ => none
+
+/-- `E=2024-6|X;P=2024-6|X;M=17;R=USD~5/4,EUR~0` -/
+def parseRateFile? (s : String) : Option RateFileM :=
+  match s.splitOn ";" with
+  | [e, p, m, r] =>
+    match (e.dropPrefix? "E=").map (·.toString), (p.dropPrefix? "P=").map (·.toString),
+          (m.dropPrefix? "M=").map (·.toString), (r.dropPrefix? "R=").map (·.toString) with
+    | some e, some p, some m, some r =>
+      match parseYM? e, parseYM? p, m.toNat? with
+      | some e, some p, some m =>
+        let rows? : Option (List (String × Rat)) :=
+          if r = "" then some []
+          else parseAll (fun kv =>
+            match kv.splitOn "~" with
+            | [k, v] => (parseRat? v).map (fun x => (k, x))
+            | _ => none) (r.splitOn ",")
+        rows?.map (fun rows => { expected := e, period := p, mtime := m, rows := rows })
+      | _, _, _ => none
+    | _, _, _, _ => none
+  | _ => none
+
+def showOpWire (t : Tx) : String :=
+  let (k, a, b, c) : String × Rat × Rat × Rat :=
+    match t.op with
+    | .buy q p f => ("B", q, p, f)
+    | .sell q p f => ("S", q, p, f)
+    | .dividend v x => ("D", v, x, 0)
+    | .accumulation q v x => ("A", q, v, x)
+    | .capreturn q v f => ("C", q, v, f)
+    | .split r => ("X", r, 0, 0)
+    | .unsplit r => ("U", r, 0, 0)
+  s!"{showDate t.date} {t.ticker} {k} {showRat a} {showRat b} {showRat c}"
+
+def showLoadErr : LoadErr → String
+  | .invalidFileName => "invalidFileName"
+  | .invalidPeriod => "invalidPeriod"
+  | .periodMismatch => "periodMismatch"
+  | .nonPositiveRate c => s!"nonPositiveRate {c}"
 
 def showCalcErr (l : List Tx) : CalcErr → String
   | .matcher e => showMErr l e
